@@ -236,7 +236,14 @@ class CFG:
         for n in elems:
             w = written_roots(n)
             if w:
-                cur = {f for f in cur if not (f[2] & w) and not ("?" in w)}
+                if "?" in w:
+                    cur = set()
+                else:
+                    this_call = "this()" in w
+                    cur = {f for f in cur if not (f[2] & w) and not (this_call and any(r.startswith("this") for r in f[2]))}
+            for summ in POST_FACTS:
+                for f in summ(n):
+                    cur.add(f)
         return cur
 
     def _edge_facts(self, p, b, inp):
@@ -270,6 +277,11 @@ class CFG:
 
     def normal_exit_preds(self):
         return [p for p in self.blocks[self.exit].preds if p in self._reach]
+
+
+# post-condition summaries: callables node -> iterable of facts (key, truth, roots) that hold right after the
+# element was evaluated.  Registered by rule modules (slots filled from the repo's API documentation).
+POST_FACTS = []
 
 
 def atoms(cond, truth):
